@@ -60,6 +60,18 @@ CHECKS = {
             "contracts on the real PersistenceImager.transform (empty / single / collection / parallel variants; _transform modular; joblib as dependency contract; parameter binding through the real signature) + the pixel contract of C04; run-time metamorphic laws with real joblib workers",
             "Proved: an empty diagram yields a zero image of the configured resolution; a single diagram and each element of a collection are mapped by _transform with exactly the imager's parameters, in order, serially or through Parallel/delayed with any n_jobs and either skew; transform leaves the fitted state untouched; the pixel formula is a sum over points (C04), from which additivity, order freedom and zero-weight neutrality follow by Sigma meta-rules. Laws are additionally sampled with real workers.",
             "D17 joblib order; Sigma-split / commutativity meta-rules; C13 for non-negativity; generator, models, contracts trusted"),
+    "C03": ("other",
+            "bounded-symbolic execution (engine E2): the real PersLandscapeExact.compute_landscape is run by CPython on proxy reals for every feasible path with <=3 bars in any order (4 in sweep order, thorough), each path's critical pairs compared with the k-th-largest-tent spec for all t and all depths by z3 (QF_LRA); run-time lattice/random comparison and exact power-of-two scale covariance",
+            "BOUNDED, not proved: complete for the stated sizes (all real end-points, all t, all k) and sampled beyond. No loop invariant for the Bubenik-Dlotko sweep is within reach of the VC generator (k-th largest over a positionally mutated bag), so no contract-level proof is claimed. The known repeated-bar shortcut defect is attributed by a line trace located through the AST.",
+            "CPython + pysym proxies; z3; sizes bounded (3 bars exhaustive); slopes of landscape functions in {-1,0,1} used to keep queries linear"),
+    "C08": ("other",
+            "contracts on death_vector and PersistenceLandscaper.transform (VCs from the AST, modular constructor) + bounded-symbolic execution (E2) of the real PersLandscapeApprox.compute_landscape on proxy reals for <=2 bars x <=6 nodes with the half-step bound checked per path by z3; run-time grids up to 50 nodes",
+            "Mixed: proved for all inputs - death vector = deaths sorted non-increasingly with multiplicity (sorted() as contract D12), rejection of hom_deg != 0, the transformer returns exactly the values (flattened on request) of the approximate landscape built from its grid parameters and leaves its state untouched. Bounded - the half-step bound and exactness on grid end-points.",
+            "D12 sorted, D13 interp, D14 linspace; L10 (snapping <= step/2, k-th largest 1-Lipschitz) paper argument; E2 bounds; known finding: 'empty' sentinel"),
+    "C09": ("other",
+            "contracts on the real grid-landscape operators (+, -, unary -, scalar *, /, union_vals) and the map-style exact operators with frame obligations (no store into an operand's buffer), VCs from the AST; bounded-symbolic execution (E2) of the real slope-merge chain of exact addition for <=3+3 breakpoints; run-time operator sequences on shared operands",
+            "Mixed: proved for all sizes - grid arithmetic is pointwise with zero padding of the shallower operand, keeps the grid, rejects mismatched grids/degrees/non-numbers/zero divisors, never writes into an operand; exact negation / scaling / division map over depths and pairs. Bounded - exact addition (merge of slope lists) for <=3+3 (4+4 thorough) breakpoints incl. coincident abscissae; snap / linear combination / average sampled.",
+            "D15 np.pad, D16 object-array dispatch, wf precondition on critical pairs; E2 bounds; generator, models, contracts trusted"),
 }
 
 NOT_YET = "check not built yet in this session (planned per DESIGN.md section 5)"
